@@ -28,6 +28,7 @@ FUNCTIONS = ['StokesPyTree._operation/_roperation and all arithmetic dunders', '
              'furax.tree.dot/as_promoted_dtype/as_structure/full_like/zeros_like/ones_like/normal_like/uniform_like/is_leaf']
 BOUNDS = {'quick': 'Stokes I/QU/IQU/IQUV, component shapes (2,) and (1,2); operand kinds: Python float, traced 0-d array, same-shape array, broadcast array, same-kind container; 5 operators x direct/reflected',
           'thorough': 'same'}
+BOUNDS['quick'] += '; from_stokes with keywords in every order (1+2+6+24), positional, from_iquv, pytree round trip on symbolic components'
 STUBS = []
 ASSUMPTIONS = ['real arithmetic; division by a value that may be 0 is compared through the same guarded 1/x atom on both sides',
                'values of normal/uniform (PRNG bits) are not claimed: structure only']
@@ -52,6 +53,7 @@ def cases(tier, seed):
         for un in ('neg', 'abs', 'pos', 'getitem', 'ravel', 'reshape', 'matmul'):
             out.append(('unary', st, un))
         out.append(('factories', st))
+        out.append(('construct', st))
     out += [('dot', 'real'), ('dot', 'complex'), ('dot', 'stokes'), ('helpers',), ('reject',)]
     return out
 
@@ -95,6 +97,8 @@ def run_case(key, twin=False):
         return _dot(key, twin)
     if k == 'factories':
         return _factories(key)
+    if k == 'construct':
+        return _construct(key)
     if k == 'helpers':
         return _helpers()
     return _reject()
@@ -236,6 +240,37 @@ def _dot(key, twin):
     return _finish(ctx, dec, res, dict(case=repr(key), out_dtype=str(gs.dtype)), key, twin)
 
 
+def _construct(key):
+    """from_stokes (positional, keywords in EVERY order) and from_iquv put each symbolic component where its name says."""
+    from furax.landscapes import StokesPyTree
+    _, st = key
+    cls = _cls(st)
+    ctx = E.Ctx()
+    dec = Decider()
+    leaf = S(2)
+    syms = {c: E.symbols(c, leaf) for c in 'IQUV'}
+    res = []
+
+    def comps(t):
+        return [getattr(t, c.lower()) for c in st]
+    want = [syms[c] for c in st]
+    for order in itertools.permutations(st):
+        got, _, _ = E.run(ctx, lambda *a, order=order: StokesPyTree.from_stokes(**dict(zip(order, a))), [(c, leaf, 'sym') for c in order])
+        if type(got) is not cls:
+            return violation(f'from_stokes(keywords {order}) returns {type(got).__name__}', signature=f'c20-construct-type:{st}:{order}', kind='struct')
+        res.append((f'from_stokes keywords {"".join(order)}', dec.decide(ctx, [pq for g, w in zip(comps(got), want) for pq in pairs(g, w, ctx)])))
+    got, _, _ = E.run(ctx, lambda *a: StokesPyTree.from_stokes(*a), [(c, leaf, 'sym') for c in st])
+    res.append(('from_stokes positional', dec.decide(ctx, [pq for g, w in zip(comps(got), want) for pq in pairs(g, w, ctx)])))
+    got, _, _ = E.run(ctx, lambda i, q, u, v: cls.from_iquv(i, q, u, v), [(c, leaf, 'sym') for c in 'IQUV'])
+    if type(got) is not cls:
+        return violation(f'{cls.__name__}.from_iquv returns {type(got).__name__}', signature=f'c20-construct-type:{st}:iquv', kind='struct')
+    res.append(('from_iquv', dec.decide(ctx, [pq for g, w in zip(comps(got), want) for pq in pairs(g, w, ctx)])))
+    # a container rebuilt from its own leaves through the pytree protocol keeps the component order
+    got, _, _ = E.run(ctx, lambda *a: jax.tree.unflatten(jax.tree.structure(cls(*a)), jax.tree.leaves(cls(*a))), [(c, leaf, 'sym') for c in st])
+    res.append(('pytree round trip', dec.decide(ctx, [pq for g, w in zip(comps(got), want) for pq in pairs(g, w, ctx)])))
+    return _finish(ctx, dec, res, dict(case=repr(key), keyword_orders=len(list(itertools.permutations(st)))), key, nontrivial=len(st) > 1)
+
+
 def _factories(key):
     from furax.landscapes import StokesPyTree
     _, st = key
@@ -371,6 +406,22 @@ def replay(key, model, info):
         key, twin = key[1], True
     key = _tuplify(key)
     kind = info.get('kind')
+    if key[0] == 'construct' and kind != 'struct':
+        from furax.landscapes import StokesPyTree
+        st = key[1]
+        cls = _cls(st)
+        vals = {c: model_tree(model, c, S(2)) for c in 'IQUV'}
+        want = cls(*[vals[c] for c in st])
+        for order in itertools.permutations(st):
+            close, msg = trees_close(StokesPyTree.from_stokes(**{c: vals[c] for c in order}), want)
+            if not close:
+                return True, f'from_stokes(keywords in order {"".join(order)}) misplaces components: {msg}'
+        for name, got in (('from_stokes positional', StokesPyTree.from_stokes(*[vals[c] for c in st])), ('from_iquv', cls.from_iquv(*[vals[c] for c in 'IQUV'])),
+                          ('pytree round trip', jax.tree.unflatten(jax.tree.structure(want), jax.tree.leaves(want)))):
+            close, msg = trees_close(got, want)
+            if not close:
+                return True, f'{name} misplaces components: {msg}'
+        return False, 'all constructions agree on the model'
     if key[0] in ('factories', 'helpers', 'reject') or kind in ('struct', 'unsupported'):
         r = run_case(key)
         return r['status'] == 'violation', r.get('what', 'ok')
